@@ -153,10 +153,37 @@ pub enum Op {
     SessionNew { lang: String },
     /// session.set_text(text); calc.execute_session(&session)
     SessionText { text: TextSpec },
+    /// session.set_language(lang) on the client's live session (its variables must survive)
+    SessionLang { lang: String },
+    /// calc.execute_session(&session) once more WITHOUT a new text (judged only when the
+    /// session's current text has exactly one line: the line is evaluated again, at the
+    /// instant of this event)
+    SessionRerun,
     Admin(AdminOp),
     /// evaluate a probe set on the long-lived calculator and on freshly built
     /// reference calculators (check-specific meaning)
     Checkpoint { probes: Vec<(String, String)> },
+    /// `outer` (Execute or SessionText of the event's actor) during which the
+    /// simulator schedules other clients' steps at the yield points an
+    /// evaluation has: the invocations of caller-supplied rule callbacks.  Inner
+    /// step j runs inside callback invocation number `at_call` of the outer
+    /// evaluation (or right after the outer call if that invocation never
+    /// happens), on the same calculator, under its own frozen instant.
+    Nested { outer: Box<Op>, inner: Vec<InnerStep> },
+}
+
+#[derive(Debug, Clone, PartialEq, Serialize, Deserialize)]
+pub struct InnerStep {
+    /// 1-based index of the callback invocation (of the outer evaluation) in which the step runs
+    pub at_call: u32,
+    pub actor: u8,
+    /// true: set_text + execute_session on that actor's session; false: one-shot execute
+    pub session: bool,
+    pub lang: String,
+    pub text: TextSpec,
+    /// the step sees the instant `base of the event's clock + dt`
+    #[serde(with = "crate::clock::i128s")]
+    pub dt: i128,
 }
 
 #[derive(Debug, Clone, PartialEq, Serialize, Deserialize)]
@@ -190,13 +217,17 @@ impl Trace {
     pub fn interleaving_hash(&self) -> u64 {
         let mut s = String::new();
         for e in &self.events {
-            s.push_str(&format!("{}:{};", e.actor, match &e.op {
-                Op::Execute { .. } => "x",
-                Op::SessionNew { .. } => "n",
-                Op::SessionText { .. } => "t",
-                Op::Checkpoint { .. } => "c",
-                Op::Admin(a) => a.kind(),
-            }));
+            let kind: String = match &e.op {
+                Op::Execute { .. } => "x".into(),
+                Op::SessionNew { .. } => "n".into(),
+                Op::SessionText { .. } => "t".into(),
+                Op::SessionRerun => "r".into(),
+                Op::SessionLang { .. } => "l".into(),
+                Op::Checkpoint { .. } => "c".into(),
+                Op::Admin(a) => a.kind().into(),
+                Op::Nested { outer, inner } => format!("N{}[{}]", if matches!(**outer, Op::Execute { .. }) { "x" } else { "t" }, inner.iter().map(|i| format!("{}@{}", i.actor, i.at_call)).collect::<Vec<_>>().join(",")),
+            };
+            s.push_str(&format!("{}:{};", e.actor, kind));
         }
         crate::prng::fnv64(s.as_bytes())
     }
